@@ -23,6 +23,14 @@ pub mod c16_sched;
 pub mod c17_strings;
 pub mod c20_memory;
 
+/// Trivial harness used only to compile the dependency (roto) once before the per-harness runs start; its
+/// verdict does not depend on the code under test.
+#[cfg_attr(kani, kani::proof)]
+pub fn k_build_probe() {
+    let x: u8 = nd::any();
+    assert!(x as u16 + 1 > 0);
+}
+
 pub type Harness = (&'static str, fn());
 
 /// `list![a, b]` → `&[("a", a), ("b", b)]`
